@@ -157,8 +157,11 @@ def run(ctx):
         for n, v in cfa.items():
             byval.setdefault(v, []).append(n)
         for v, ns in sorted(byval.items()):
-            ctx.ob('R-INV', 'dwarf/callframe.py:_OPCODE_NAME_MAP', 'opcode %#x' % v, m.get(v) in ns,
-                   msg='CFA opcode name map misses or misnames an opcode', got=m.get(v), expected=ns)
+            # a code is reported under its *registry* name: where several constants share the value (a mask or helper next to the
+            # opcode), the map must keep a name the registry defines, if there is one
+            regd = [n for n in ns if reg_lookup(n, True)]
+            ctx.ob('R-INV', 'dwarf/callframe.py:_OPCODE_NAME_MAP', 'opcode %#x' % v, m.get(v) in (regd or ns),
+                   msg='CFA opcode name map misses an opcode or reports it under a name the registry does not define', got=m.get(v), expected=regd or ns)
         for v, n in m.items():
             ctx.ob('R-INV', 'dwarf/callframe.py:_OPCODE_NAME_MAP', 'rev %r' % (v,), cfa.get(n) == v,
                    msg='CFA opcode name map entry is not a DW_CFA constant', got=n)
@@ -184,6 +187,11 @@ def run(ctx):
             ctx.ob('R-SUP', 'elf/enums.py:ENUM_D_TAG', 'contains ENUM_D_TAG_COMMON', not missing, got=missing[:5])
     ctx.guard('R-SUP', 'machine tables', sup)
     ctx.floor('R-SUP', 8)
+    # --- table selection: a registry-correct table is only as good as the rule that picks it for a file (shared with C09) ----
+    from props import C09
+    ctx.rule('L-ENUM', 'the dynamic-tag table a file gets is common + processor tags of its machine + OS tags of its OS ABI')
+    ctx.guard('L-ENUM', 'd_tag', C09.check_tag_tables, ctx, w, ctx.tier == 'thorough')
+    ctx.floor('L-ENUM', 8)
 
 
 EN, CO, DE, DC, DX = 'elf/enums.py', 'elf/constants.py', 'dwarf/enums.py', 'dwarf/constants.py', 'dwarf/dwarf_expr.py'
@@ -212,5 +220,8 @@ MUTANTS = [
     ('cfa-offset-bits', DC, "DW_CFA_offset = 0b10000000", "DW_CFA_offset = 0b01000000", 'R-'),
     ('op-call-frame-cfa', DX, "    DW_OP_call_frame_cfa=0x9c,", "    DW_OP_call_frame_cfa=0x9d,", 'R-REG'),
     ('op-entry-value', DX, "    DW_OP_entry_value=0xa3,", "    DW_OP_entry_value=0xa4,", 'R-REG'),
+    ('cfa-mask-shadows-opcode', DC, "DW_CFA_restore = 0b11000000", "DW_CFA_restore = 0b11000000\nDW_CFA_zz_primary_mask = 0xc0", 'R-INV'),
+    ('dyn-solaris-elif', 'elf/structs.py', "        if self.e_ident_osabi == 'ELFOSABI_SOLARIS':\n            d_tag_dict.update(ENUM_D_TAG_SOLARIS)",
+     "        elif self.e_ident_osabi == 'ELFOSABI_SOLARIS':\n            d_tag_dict.update(ENUM_D_TAG_SOLARIS)", 'L-ENUM'),
     ('opcode2name-filtered', DX, "DW_OP_opcode2name = {v: k for k, v in DW_OP_name2opcode.items()}", "DW_OP_opcode2name = {v: k for k, v in DW_OP_name2opcode.items() if v < 0xe0}", 'R-INV'),
 ]
